@@ -44,7 +44,17 @@ partial def loop (h : IO.FS.Stream) (out : IO.FS.Stream) : IO Unit := do
     out.putStrLn (stepLine line)
   loop h out
 
-def main : IO Unit := do
+/-- Generators (`driver --gen <name> <seed> <quick|thorough>`): the Lean side produces inputs for
+the real code (reference-written files for C06); each returns the lines to hand to the harness. -/
+def generators : List (String × (Nat → Bool → List String)) :=
+  [  ]
+
+def main (args : List String) : IO Unit := do
   let out ← IO.getStdout
-  loop (← IO.getStdin) out
+  match args with
+  | ["--gen", name, seed, tier] =>
+    match generators.find? (·.1 == name) with
+    | some g => for l in g.2 seed.toNat! (tier == "thorough") do out.putStrLn l
+    | none => IO.eprintln s!"unknown generator {name}"; IO.Process.exit 2
+  | _ => loop (← IO.getStdin) out
   out.flush
